@@ -38,11 +38,18 @@ theorem renderLine_inst (l : InstLine) :
 theorem afterOps_head (l : InstLine) : afterOps l = [] ∨ ∃ t, afterOps l = ' ' :: t := by
   unfold afterOps
   cases l.annot with
-  | some a => right; exact ⟨_, rfl⟩
+  | some a =>
+    right
+    cases l.comment with
+    | none => exact ⟨'<' :: a ++ ['>'] ++ blanks l.trail, by simp⟩
+    | some c => exact ⟨'<' :: a ++ ['>'] ++ (blanks 8 ++ '#' :: ' ' :: c) ++ blanks l.trail, by simp⟩
   | none =>
     cases l.comment with
-    | some c => right; exact ⟨blanks 7 ++ '#' :: ' ' :: c, by simp [blanks, List.replicate_succ]⟩
-    | none => left; rfl
+    | some c => right; exact ⟨blanks 7 ++ '#' :: ' ' :: c ++ blanks l.trail, by simp [blanks, List.replicate_succ]⟩
+    | none =>
+      cases ht : l.trail with
+      | zero => left; simp [blanks]
+      | succ n => right; exact ⟨blanks n, by simp [blanks, List.replicate_succ]⟩
 
 theorem operandPart_ops (l : InstLine) (h : InstLine.WF l) (hne : l.ops ≠ []) :
     operandPart (blanks l.gap ++ joinSep [','] (l.ops.map Operand.print) ++ afterOps l)
@@ -105,10 +112,20 @@ theorem operandPart_none (l : InstLine) (hno : l.ops = []) (ha : l.annot = none)
     operandPart (tailText l) = none := by
   simp only [tailText, afterOps, hno, List.isEmpty_nil, if_true, ha, List.nil_append]
   cases l.comment with
-  | none => rfl
+  | none =>
+    cases l.trail with
+    | zero => rfl
+    | succ n =>
+      have e : blanks (n + 1) = ' ' :: (blanks n ++ []) := by simp [blanks, List.replicate_succ]
+      have hd : dropSpaces (' ' :: (blanks n ++ [])) = [] := by
+        simp only [dropSpaces]
+        exact dropSpaces_blanks n [] (by simp)
+      simp only [List.nil_append, e, operandPart, hd, spanP]
+      simp
   | some c =>
-    have e : blanks 8 ++ '#' :: ' ' :: c = ' ' :: (blanks 7 ++ '#' :: ' ' :: c) := by simp [blanks, List.replicate_succ]
-    have hd : dropSpaces (' ' :: (blanks 7 ++ '#' :: ' ' :: c)) = '#' :: ' ' :: c := by
+    have e : blanks 8 ++ '#' :: ' ' :: c ++ blanks l.trail = ' ' :: (blanks 7 ++ '#' :: ' ' :: (c ++ blanks l.trail)) := by
+      simp [blanks, List.replicate_succ]
+    have hd : dropSpaces (' ' :: (blanks 7 ++ '#' :: ' ' :: (c ++ blanks l.trail))) = '#' :: ' ' :: (c ++ blanks l.trail) := by
       simp only [dropSpaces]
       exact dropSpaces_blanks 7 _ (by simp)
     simp only [e, operandPart, hd, spanP]
